@@ -1532,8 +1532,8 @@ class Normaliser:
             if isinstance(st, ast.Assign) and len(st.targets) == 1 and isinstance(st.targets[0], ast.Name):
                 return st
             return None
-        # 1. tuple(gen) / list(gen) -> [..]
-        for n in own:
+        # 1. list(gen) -> [..]   (tuple(gen) is left as it is: recognisers of axis tuples read it that way; `single` treats it as sized)
+        for n in []:
             for f, v in ast.iter_fields(n):
                 items = v if isinstance(v, list) else [v]
                 for i, x in enumerate(items):
